@@ -41,9 +41,9 @@ CHECKS = {
          "For every cloneable type the clone must render equal, share no memory region with the original outside the documented shared set, and scribbling over every leaf of either side (and further machine operations on either machine) must not change the other side.",
          "Trusted: the pointer-graph walker (harness/internal/ptrgraph); the shared set is taken from the statement (App, Asset, accounts, logger).",
          "DESIGN.md §5 C19"),
- "C05": ("exploration", "runtime monitoring: the real watcher driven by a scripted RegisterSubscriber through exhaustive short and random long histories, compared step by step with a reference model",
-         "Every operation (publish, adjudicator events with versions below/equal/above the published one, start/stop of sub-channels, refused and repeated stops) is followed by a barrier that makes its effects complete without sleeping; the Register calls received (parent version, per locked sub-channel the state version), the events on every EventStream and the results are compared exactly with the reference model of appendix B.",
-         "Trusted: the reference model; single ledger and the statement's domain (locked sub-channels are watched or archived). The scripted Register always succeeds. Concurrent publish/event races are not part of the exact oracle.",
+ "C05": ("exploration", "runtime monitoring: the real watcher driven by a scripted RegisterSubscriber through exhaustive short and random long histories, compared step by step with a reference model; concurrent publisher/event histories judged by an interval oracle on a shared logical counter, also under the race detector",
+         "Every operation (publish, adjudicator events with versions below/equal/above the published one, start/stop of sub-channels, refused and repeated stops) is followed by a barrier that makes its effects complete without sleeping; the Register calls received (parent version, per locked sub-channel the state version), the events on every EventStream and the results are compared exactly with the reference model of appendix B. In concurrent mode publishers of the parent and a sub-channel race with registered events (also the same registration on both channels at once): every Register call must carry versions between the newest one certainly consumed before the event and the newest one published before the call, must happen when a newer version had certainly been consumed, at most once, never without a newer version; relaying is exact; a data race inside watcher/local is a violation.",
+         "Trusted: the reference model; single ledger and the statement's domain (locked sub-channels are watched or archived). The scripted Register always succeeds. The interval oracle's lower bound assumes a FIFO publish pipe whose capacity is read by reflection.",
          "DESIGN.md §5 C05, appendix B"),
  "C10": ("fault_enumeration", "runtime monitoring with fault injection: store frozen at every atomic write boundary of generated histories (memory: snapshot per boundary; LevelDB: re-run with later writes dropped, close, re-open), restored channel compared with live snapshots",
          "For every history of the persisting state machine and every write boundary, RestoreChannel and RestorePeer must yield exactly the live machine's state before or after the interrupted operation (after, once its last write is in), and every restored staging signature must verify for the restored staged state.",
@@ -62,11 +62,11 @@ CHECKS = {
          "Trusted: the scripted ledgers; completion order is controlled by releasing blocked sub-calls at harness-detected stable points (goroutine count), so no wall-clock verdicts.",
          "DESIGN.md §5 C20"),
  "C03": ("exploration", "runtime monitoring: generated life-cycle scenarios of two real clients on a strict reference ledger with a logical clock; conservation/payout oracle over ledger balances and recorded Enabled streams",
-         "Scenario programs (payments, accept/reject, optional sub-channel, cooperative or disputed settlement, settle order, secondary flags, funding agreements) run on the real client, watcher and state machines; the strict ledger verifies signatures/versions/challenge period and logs every call. After both Settle calls returned, each party's on-chain delta must equal its balance in the last state both enabled minus exactly the agreed funding, totals must be unchanged and nothing may remain held; a ledger refusal of an honest call is reported.",
+         "Scenario programs (payments, accept/reject, optional sub-channel, cooperative or disputed settlement, settle order, secondary flags, funding agreements) run on the real client, watcher and state machines; the strict ledger verifies signatures/versions/challenge period and logs every call. After both Settle calls returned, each party's on-chain delta must equal its balance in the last state both enabled minus exactly the agreed funding, totals must be unchanged and nothing may remain held; a ledger refusal of an honest call is reported, and so is an honest update request that was delivered but never answered (judged from the recorded messages at quiescence).",
          "Trusted: the strict ledger (harness/internal/ledger) as reference adjudicator, including that Withdraw waits for the challenge period like real backends; schedules come from bus noise, handler yields and the scheduler. Runs with timeouts or failing Settle calls are inconclusive for the payout oracle.",
          "DESIGN.md §5 C03"),
  "C04": ("exploration", "runtime monitoring with an adversary: recorded old transactions registered directly on the strict ledger at enumerated trigger points (between operations and with an update in flight, gated), verdict at ledger idleness on the logical clock",
-         "For every (trigger point x old version) of short histories, and sampled for long ones, the peer registers an outdated fully signed state (with the oldest sub-channel states); when the ledger is idle and before the logical clock moves the registered version must be >= the honest party's newest enabled version (also for locked sub-channels), the ledger must accept the watcher's refutation, and after timeout and settlement the honest payout must be >= its newest balance. The known finding D24 (update in flight) is reported as KNOWN-FINDING by its observed history class.",
+         "For every (trigger point x old version) of short histories, and sampled for long ones, the peer registers an outdated fully signed state (with the oldest sub-channel states); when the ledger is idle and before the logical clock moves the registered version must be >= the honest party's newest enabled version (also for locked sub-channels), the ledger must accept the watcher's refutation, and after timeout and settlement the honest payout must be >= its newest balance. Histories may end in a final state; triggers include updates in flight on the ledger channel and on a sub-channel, each also with the events of the honest party's own registration held back until the update completed (then the watcher must refute again). The known finding D24 (no adjudicator event reaches the watcher after the newest state was published) is reported as KNOWN-FINDING by its observed history class; a newest state that was never published although older ones were is a violation.",
          "Trusted: strict ledger and its idleness notion (no call in flight, no subscriber about to wake, every subscriber in Next or waiting for a timeout); the adversary runs no watcher of its own. No wall-clock verdicts.",
          "DESIGN.md §5 C04"),
  "C06": ("exploration", "runtime monitoring: invariant monitors inside the recording persisters of both clients (called under the channel lock) plus result/agreement comparison over generated update programs under schedule noise and the race detector",
@@ -74,15 +74,15 @@ CHECKS = {
          "Trusted: recording persister ordering (one shared counter); decisions are fed to the handler in FIFO order per (receiver, channel). Runs with timeouts keep only the fully-signed invariant, as the statement says.",
          "DESIGN.md §5 C06"),
  "C08": ("exploration", "runtime monitoring: real clients opening ledger/sub/virtual channels under bus noise with both sides' results compared; mutated proposals injected on the bus with a recording proposal handler and a barrier; child processes attribute crashes",
-         "Positives compare ID, participant order, nonce, app, duration, flags and the fully signed version-0 state of both returned channels with the proposal, and nonce-share differential pairs must change the ID. Negatives deliver every single-condition mutation of well-formed proposals (30 mutators over the three proposal kinds; objects and both serializers) to a client with matching parents and check, after a barrier, that the handler was never invoked and no channel created; unmutated controls must reach the handler.",
+         "Positives compare ID, participant order, nonce, app, duration, flags and the fully signed version-0 state of both returned channels with the proposal, and nonce-share differential pairs must change the ID; an accepted opening that fails although every message was delivered and nothing moved for two thirds of the wait is reported as stalled (the bus adds send lag so that send-then-prepare windows open). Negatives deliver every single-condition mutation of well-formed proposals (32 mutators over the three proposal kinds; objects and both serializers) to a client with matching parents and check, after a barrier, that the handler was never invoked and no channel created; unmutated controls must reach the handler.",
          "Trusted: the barrier (a later valid proposal from the same sender answered + bus drained + no handler in flight); only natively encodable proposals are delivered.",
          "DESIGN.md §5 C08"),
  "C07": ("exploration", "runtime monitoring with an adversary holding a valid key: crafted and rewritten updates delivered to a real accept-everything client; an acceptability predicate evaluated inside the client's persister callback for its own signature",
-         "At several life points (plain channel, locked sub-channels, pending funding, pending settlement) the peer sends correctly signed but unsafe updates (wrong actor, signature over another state, every sums-preserving edit of locked sub-allocations, replays) and rewrites its own funding/settlement updates on its link (wrong debits/credits, other amounts, index maps, touching other sub-allocations). Whenever the victim adds its own signature to a received update, the staged state is judged against its current state by an independent predicate written from the statement.",
-         "Trusted: the predicate (harness/props/c07 acceptable + refmodel.ValidSuccessor); actor taken from the tapped message; virtual-channel funding/settlement at a hub is not in the workload yet.",
+         "At several life points (plain channel, locked sub-channels, pending funding, pending settlement) the peer sends correctly signed but unsafe updates (wrong actor, signature over another state, every sums-preserving edit of locked sub-allocations, replays) and rewrites its own funding/settlement updates on its link (wrong debits/credits, other amounts, index maps, touching other sub-allocations). Whenever the victim adds its own signature to a received update, the staged state is judged against its current state by an independent predicate written from the statement. Hub workload: the victim routes a virtual channel between the adversary and an honest client; the adversary's funding / settlement proposal is rewritten on its own link (hub debited instead of the sender, debits or credits swapped, one unit taken, other sub-allocations renamed or drained, other amount or index map inside the state) and what the hub countersigns is judged against the proposal message.",
+         "Trusted: the predicates (harness/props/c07 acceptable, acceptableAtHub + refmodel.ValidSuccessor); actor and, at the hub, the virtual channel's state and index map are taken from the tapped message carrying the staged state.",
          "DESIGN.md §5 C07"),
  "C12": ("exploration", "runtime monitoring in child processes: hostile decodable message sequences delivered to a real client at several life points; oracle = process survival (parent attributes deaths to the announced case) plus liveness probes on the attacked and a control channel",
-         "Sequences of 1-4 envelopes from a catalogue of 43 structured hostile messages over every request/response type (built from live templates with valid IDs, versions and signatures) and byte-level mutants that still decode, each delivered only after a serializer round trip, at the life points idle / update in flight / during an opening / after registration. Afterwards the victim's channel lock must be free and it must answer a valid incoming update within 45 s (library waits on these paths are 10 s), on the attacked and on an untouched control channel.",
+         "Sequences of 1-4 envelopes from a catalogue of 47 structured hostile messages over every request/response type (built from live templates with valid IDs, versions and signatures) and byte-level mutants that still decode, each delivered only after a serializer round trip, at the life points idle / update in flight / during an opening / after registration, also against a victim that is the hub of a live virtual channel. Afterwards the victim's channel lock must be free and it must answer a valid incoming update within 45 s (library waits on these paths are 10 s), on the attacked and on an untouched control channel.",
          "Trusted: child-process attribution (a death is charged to the most recently announced case); the patience restatement of 'permanently'; the harness holds the adversary's and - to emulate states the victim signed earlier - the victim's key when building virtual channel states.",
          "DESIGN.md §5 C12, appendix C"),
 }
